@@ -107,6 +107,20 @@ def exportedNames : List Tok → List (Str × Str)
       | _, _ => []
     here ++ exportedNames rest
 
+/-- every `export async function NAME` is immediately followed by `(` or `<`: the name is one identifier token -/
+def functionHeadsOk : List Tok → Bool
+  | [] => true
+  | t :: rest =>
+    (match t, rest with
+     | .id e, .id k :: .id n :: .id _ :: more =>
+       if e = cl!"export" && k = cl!"async" && n = cl!"function" then
+         (match more with | .p '(' :: _ => true | .p '<' :: _ => true | _ => false)
+       else true
+     | .id e, .id k :: .id n :: more =>
+       -- `export async function` followed by something that is not an identifier at all
+       if e = cl!"export" && k = cl!"async" && n = cl!"function" then (match more with | .id _ :: _ => true | _ => false) else true
+     | _, _ => true) && functionHeadsOk rest
+
 /-- string literal that is the first argument of every call of `fname` (through an optional `<…>` type argument list) -/
 def skipAngles : Nat → List Tok → List Tok
   | _, [] => []
